@@ -1027,6 +1027,18 @@ func (e *Env) callExpr(c *CExpr) val {
 			t = app("s_arr", a.t)
 		}
 		return boolVal(and(app(">=", t, vc.getNext(e.old)), app("<", t, vc.getNext(e.cur))))
+	case "deref":
+		// deref(p): the value a pointer to a scalar (e.g. a flag variable) points to
+		argn(1)
+		a := e.eval(c.Args[0])
+		pt, ok := a.typ.Underlying().(*types.Pointer)
+		if !ok {
+			e.fail("deref of non-pointer")
+		}
+		if _, isStruct := pt.Elem().Underlying().(*types.Struct); isStruct {
+			e.fail("deref of a struct pointer: use field selection")
+		}
+		return val{sel(vc.get(e.cur, vc.cellHeap(pt.Elem())), a.t), pt.Elem(), vc.sortOf(pt.Elem())}
 	case "allocated":
 		argn(1)
 		a := e.eval(c.Args[0])
